@@ -2,6 +2,7 @@
 package vcontext
 
 import (
+	"context"
 	"time"
 
 	"github.com/mimecast/dtail/verif/vrt"
@@ -84,3 +85,30 @@ func AfterFunc(ctx Context, f func()) (stop func() bool) {
 		return !done
 	}
 }
+
+// Native bridges a virtual context into a real context.Context for code that is not rewritten (standard library,
+// third-party modules): the real context is cancelled when the virtual one is (a managed goroutine watches it) and
+// carries its values.  Deadlines are virtual time and are not transferred, only the resulting cancellation is.
+func Native(c Context) context.Context {
+	if c == nil {
+		return context.Background()
+	}
+	nc, cancel := context.WithCancel(valueCtx{context.Background(), c})
+	if d := c.Done(); d != nil {
+		if vrt.W != nil {
+			vrt.Go("context-bridge", func() {
+				d.Recv("context-bridge")
+				cancel()
+			})
+		}
+	}
+	_ = cancel
+	return nc
+}
+
+type valueCtx struct {
+	context.Context
+	v Context
+}
+
+func (c valueCtx) Value(k interface{}) interface{} { return c.v.Value(k) }
